@@ -682,6 +682,25 @@ def apply_wop(txn, op):
         txn.add(name, dns.rdataset.from_text("IN", "A", 30, "10.1.%d.%d" % (op[2] // 250 % 250, op[2] % 250)))
     elif kind == "deltxt":
         txn.delete(name, "TXT")
+    elif kind == "empty":
+        # an rdataset with no rdatas, through the transaction API
+        rdtype = (dns.rdatatype.TXT, dns.rdatatype.A, dns.rdatatype.MX)[op[2] % 3]
+        (txn.replace if op[2] % 2 else txn.add)(name, dns.rdataset.Rdataset(IN, rdtype, ttl=30))
+    elif kind == "vempty":
+        # ... and through the writable version's own put_rdataset
+        rdtype = (dns.rdatatype.TXT, dns.rdatatype.A, dns.rdatatype.MX)[op[2] % 3]
+        txn.version.put_rdataset(name, dns.rdataset.Rdataset(IN, rdtype, ttl=30))
+    elif kind == "dellast":
+        # delete every rdataset of the node one by one (the last deletion leaves an empty node behind or removes it)
+        node = txn.get_node(name)
+        for rds in list(node) if node is not None else []:
+            txn.delete(name, rds.rdtype, rds.covers)
+    elif kind == "nodeapi":
+        # node-level API on the writer's own (copied) node: empty it without going through the transaction
+        txn.replace(name, dns.rdataset.from_text("IN", "TXT", 60, f'"n{op[2]}"'))
+        node = txn.version.nodes[name]
+        for rds in list(node.rdatasets):
+            node.delete_rdataset(rds.rdclass, rds.rdtype, rds.covers)
     else:
         raise ValueError(op)
 
@@ -1000,8 +1019,10 @@ def gen_immhist(rng, zk):
                 ops.append(["delns", rng.choice(cuts), 0])
             elif x < 7:
                 ops.append(["delnode", rng.choice(cuts + [4, 5, 8]), 0])
-            elif x < 9:
+            elif x < 8:
                 ops.append([rng.choice(["txt", "a"]), rng.below(len(TREE)), rng.below(1000)])
+            elif x < 9:
+                ops.append([rng.choice(["empty", "empty", "vempty", "dellast"]), rng.range(1, len(TREE) - 1), rng.below(1000)])
             else:
                 ops.append(["deltxt", rng.below(len(TREE)), 0])
         txns.append(ops)
@@ -1010,6 +1031,10 @@ def gen_immhist(rng, zk):
 
 
 IMMHIST_BOUNDARY = [
+    # rdatasets with no rdatas: at a new name, at a name holding only that type, next to other data; via txn and via the
+    # writable version; and nodes whose last rdataset is deleted
+    [[["txt", 1, 1], ["a", 2, 2], ["txt", 9, 3]], [["empty", 5, 1], ["empty", 9, 1], ["empty", 2, 4], ["vempty", 6, 0]], [["txt", 10, 5]]],
+    [[["txt", 1, 1], ["a", 2, 2], ["txt", 9, 3], ["a", 9, 4]], [["dellast", 9, 0], ["dellast", 2, 0], ["empty", 1, 3]], [["vempty", 1, 1], ["vempty", 8, 2]]],
     # a cut created above existing names, untouched in that transaction (glue re-flagging path)
     [[["txt", 1, 1], ["a", 2, 2], ["a", 3, 3], ["txt", 4, 4], ["a", 5, 5], ["txt", 9, 9]], [["ns", 1, 1]]],
     # ... and removed again, by deleting the NS rdataset / the whole node
